@@ -258,6 +258,22 @@ def confirm(reqs, label="confirm", **kw):
     return full
 
 
+def history_confirm(reqs, rid, nproc=None, label="history confirm"):
+    """A rejected case that does not reproduce alone may depend on what the same worker process evaluated before it
+    (process-wide caches).  Re-run the prefix of the shard the case was in, in ONE process, and return the case's response
+    (None if the case cannot be located)."""
+    nproc = nproc or NCPU
+    nshards = min(nproc, max(1, len(reqs) // 8)) or 1
+    for k in range(nshards):
+        shard = reqs[k::nshards]
+        ids = [r["id"] for r in shard]
+        if rid in ids:
+            prefix = [dict(r) for r in shard[:ids.index(rid) + 1]]
+            out = run_cases(prefix, nproc=1, label=label)
+            return out.get(rid)
+    return None
+
+
 def classify_death(stderr):
     s = stderr or ""
     if "stack exceeds" in s or "stack overflow" in s:
